@@ -192,6 +192,20 @@ __CPROVER_assigns(self->size_, self->heap_ptr, self->heap_capacity, other->size_
 #include "SV_move_ctor.body.inc"
 
 BlkH g_oldheap;
+/* SmallVector(count) / SmallVector(count, value): an empty inline vector resized to count (through resize's contract) */
+void SV_ctor_count(SV* self, size_t count)
+__CPROVER_requires(HOK(self) && g_cap[self->inl] == KN && g_align[self->inl] >= ALIGNOF_T && !g_freed[self->inl] && g_live[self->inl] == 0 && count <= CAP_MAX / 2 - 1)
+__CPROVER_requires(g_size0 == 0 && g_cap0 == KN && g_c0 == g_T_constructed && g_d0 == g_T_destroyed && g_a0 == g_allocs && g_f0 == g_frees)
+__CPROVER_ensures(HOK(self) && WF(self) && RAW(self) == count && BALANCE(self))
+__CPROVER_assigns(FRAME)
+#include "SV_ctor_count.body.inc"
+void SV_ctor_count_value(SV* self, size_t count, Arg value)
+__CPROVER_requires(HOK(self) && g_cap[self->inl] == KN && g_align[self->inl] >= ALIGNOF_T && !g_freed[self->inl] && g_live[self->inl] == 0 && count <= CAP_MAX / 2 - 1 && !value.is_ref)
+__CPROVER_requires(g_size0 == 0 && g_cap0 == KN && g_c0 == g_T_constructed && g_d0 == g_T_destroyed && g_a0 == g_allocs && g_f0 == g_frees)
+__CPROVER_ensures(HOK(self) && WF(self) && RAW(self) == count && BALANCE(self))
+__CPROVER_assigns(FRAME)
+#include "SV_ctor_count_value.body.inc"
+
 /* copy construction / copy assignment: as many elements as other holds are copy-constructed (net of any relocation), other is not
  * modified; assignment first destroys what this vector held and releases its heap block */
 size_t g_olive0;
@@ -264,6 +278,12 @@ void h_SV_clear(void) { SV v; mk(&v, 0); SV_clear(&v); }
 void h_SV_reserve(void) { SV v; mk(&v, 0); size_t c; BND(c); SV_reserve(&v, c); }
 void h_SV_dtor(void) { SV v; mk(&v, 0); SV_dtor(&v); }
 void h_SV_move_ctor(void) { SV o; mk(&o, 1); g_osize0 = RAW(&o); SV v; v.inl = 0; mk_inl(0); v.heap_ptr = 0; v.heap_capacity = 0; v.size_ = nondet_size_t(); SV_move_ctor(&v, &o); }
+static void mk_fresh(SV* v) { for (int j = 0; j < NBLK; ++j) { g_used[j] = 0; g_freed[j] = 0; g_vacated[j] = 0; g_live[j] = 0; g_cap[j] = 0; g_align[j] = 0; }
+  v->inl = 0; mk_inl(0); v->heap_ptr = 0; v->heap_capacity = 0; v->size_ = nondet_size_t();
+  g_T_constructed = nondet_int(); g_T_destroyed = nondet_int(); __CPROVER_assume(g_T_constructed < (1u << 30) && g_T_destroyed < (1u << 30)); g_allocs = 0; g_frees = 0;
+  g_size0 = 0; g_cap0 = KN; g_inl0 = 1; g_c0 = g_T_constructed; g_d0 = g_T_destroyed; g_a0 = g_allocs; g_f0 = g_frees; }
+void h_SV_ctor_count(void) { SV v; mk_fresh(&v); size_t c; BND(c); SV_ctor_count(&v, c); }
+void h_SV_ctor_count_value(void) { SV v; mk_fresh(&v); size_t c; BND(c); Arg x; x.is_ref = 0; SV_ctor_count_value(&v, c, x); }
 void h_SV_copy_ctor(void) { SV o; mk(&o, 1); g_osize0 = RAW(&o); g_olive0 = g_live[DATA(&o)]; SV v; v.inl = 0; mk_inl(0); v.heap_ptr = 0; v.heap_capacity = 0; v.size_ = nondet_size_t(); SV_copy_ctor(&v, &o); }
 void h_SV_copy_assign(void) { SV o; SV v; for (int j = 0; j < NBLK; ++j) { g_used[j] = 0; g_freed[j] = 0; g_vacated[j] = 0; g_live[j] = 0; g_cap[j] = 0; g_align[j] = 0; }
   mk_state(&o, 1); mk_state(&v, 0); g_osize0 = RAW(&o); g_olive0 = g_live[DATA(&o)];
